@@ -820,11 +820,31 @@ theorem simLoopG_nil (s : SimG K) : simLoopG cfg [] s = .ok s := rfl
 theorem simLoopG_cons (d : Nat) (ds : List Nat) (s : SimG K) :
     simLoopG cfg (d :: ds) s = (simDayG cfg d s).bind (simLoopG cfg ds) := rfl
 
+theorem simDayG0_mk (d : Nat) (w : World K) (t : GTree K) (papers : List (List Nat × SimG K)) :
+    simDayG0 cfg d (.mk w t papers) =
+      (simPapersG0 cfg d papers w).bind fun r =>
+        (updRoot cfg d r.2).map fun w2 => SimG.mk w2 t r.1 := by
+  rw [simDayG0]
+
+theorem simPapersG0_nil (d : Nat) (w : World K) : simPapersG0 cfg d [] w = .ok ([], w) := by
+  rw [simPapersG0]; rfl
+
+theorem simPapersG0_cons (d : Nat) (path : List Nat) (s : SimG K) (rest : List (List Nat × SimG K)) (w : World K) :
+    simPapersG0 cfg d ((path, s) :: rest) w =
+      (simDayG0 cfg d s).bind fun s' =>
+        (simPapersG0 cfg d rest { w with root := setPaperPx s'.world.price path w.root }).map fun r =>
+          ((path, s') :: r.1, r.2) := by
+  rw [simPapersG0]
+
+theorem simShadowG_nil (s : SimG K) : simShadowG cfg [] s = .ok s := rfl
+theorem simShadowG_cons (d0 : Nat) (ds : List Nat) (s : SimG K) :
+    simShadowG cfg (d0 :: ds) s = (simDayG0 cfg d0 s).bind (simLoopG cfg ds) := rfl
+
 theorem simRunG_mk (c : K) (d0 : Nat) (ds : List Nat) (w0 : World K) (t : GTree K)
     (papers : List (List Nat × SimG K)) :
     simRunG cfg c (d0 :: ds) (.mk w0 t papers) =
       (opAdjust w0 [] c true true).bind fun w1 =>
-      (simPapersG cfg d0 papers w1).bind fun r =>
+      (simPapersG0 cfg d0 papers w1).bind fun r =>
       (updRoot cfg d0 r.2).bind fun w3 => simLoopG cfg ds (.mk w3 t r.1) := rfl
 
 theorem simLoopG_append (ds1 ds2 : List Nat) (s : SimG K) :
@@ -873,7 +893,7 @@ theorem simRunG_leaf (c : K) (t : GTree K) (dates : List Nat) (w0 : World K) :
     cases opAdjust w0 [] c true true with
     | error e => rfl
     | ok w1 =>
-      rw [bind_ok, bind_ok, simPapersG_nil, bind_ok]
+      rw [bind_ok, bind_ok, simPapersG0_nil, bind_ok]
       cases updRoot cfg d0 w1 with
       | error e => rfl
       | ok w3 => exact simLoopG_leaf t ds w3
@@ -888,20 +908,18 @@ theorem simPapersG_noDust {d : Nat} : ∀ (papers : List (List Nat × SimG K)) (
     obtain ⟨r1, h1, rfl⟩ := map_eq_ok h
     exact (simPapersG_noDust rest _ r1 h1).trans (noDust_setPaperPx _ path w.root)
 
-/-- **the shadow copy of a definition (any nesting, any run functions) is its stand-alone backtest**: the loop body
-    on the first date is the single `update(d0)` of `Backtest.run` because `Strategy.run()` of the definition's own
-    tree is the identity there; the copy's own shadow copies are stepped identically on both sides -/
-theorem simLoopG_funded_eq_simRunG (htol : 0 < cfg.tol) (c : K) (d0 : Nat) (ds : List Nat) (w0 : World K)
-    (t : GTree K) (papers : List (List Nat × SimG K)) (hnd : P08.NoDust cfg w0.root)
-    (hid : ∀ w, treeRunG t [] d0 w = .ok w) :
-    (opAdjust w0 [] c true true).bind (fun w1 => simLoopG cfg (d0 :: ds) (.mk w1 t papers)) =
+/-- **the shadow copy of a definition (any nesting, any run functions) is its stand-alone backtest**: on the first date a
+    shadow copy is only updated (`simDayG0`) - what `Backtest.run` does to its own tree there -, on the later dates both
+    get the loop body; the copy's own shadow copies are stepped identically on both sides.  No hypothesis. -/
+theorem simShadowG_funded_eq_simRunG (c : K) (d0 : Nat) (ds : List Nat) (w0 : World K)
+    (t : GTree K) (papers : List (List Nat × SimG K)) :
+    (opAdjust w0 [] c true true).bind (fun w1 => simShadowG cfg (d0 :: ds) (.mk w1 t papers)) =
       simRunG cfg c (d0 :: ds) (.mk w0 t papers) := by
   rw [simRunG_mk]
-  refine P09.bind_congr' _ fun w1 hw1 => ?_
-  rw [simLoopG_cons, simDayG_mk, P09.bind_assoc']
-  refine P09.bind_congr' _ fun r hr => ?_
-  have hnd2 : P08.NoDust cfg r.2.root := (simPapersG_noDust _ _ _ hr).2 ((P09.opAdjust_noDust hw1).2 hnd)
-  rw [P09.btDay_gated htol hnd2 (fun w _ _ => hid w), map_bind']
+  refine P09.bind_congr' _ fun w1 _ => ?_
+  rw [simShadowG_cons, simDayG0_mk, P09.bind_assoc']
+  refine P09.bind_congr' _ fun r _ => ?_
+  rw [map_bind']
 
 end sim
 
@@ -930,6 +948,25 @@ theorem simDayG_papers {d : Nat} {w : World K} {t : GTree K} {papers : List (Lis
   obtain ⟨w2, _, rfl⟩ := map_eq_ok h
   exact ⟨w2, r.1, rfl, simPapersG_forall₂ _ _ _ hr⟩
 
+theorem simPapersG0_forall₂ {d : Nat} : ∀ (papers : List (List Nat × SimG K)) (w : World K)
+    (r : List (List Nat × SimG K) × World K), simPapersG0 cfg d papers w = .ok r →
+    List.Forall₂ (fun a b => a.1 = b.1 ∧ simDayG0 cfg d a.2 = .ok b.2) papers r.1
+  | [], w, r, h => by rw [simPapersG0_nil] at h; cases h; exact .nil
+  | (path, s) :: rest, w, r, h => by
+    rw [simPapersG0_cons] at h
+    obtain ⟨s', hs, h⟩ := bind_eq_ok h
+    obtain ⟨r1, h1, rfl⟩ := map_eq_ok h
+    exact .cons ⟨rfl, hs⟩ (simPapersG0_forall₂ rest _ r1 h1)
+
+theorem simDayG0_papers {d : Nat} {w : World K} {t : GTree K} {papers : List (List Nat × SimG K)} {S' : SimG K}
+    (h : simDayG0 cfg d (.mk w t papers) = .ok S') :
+    ∃ w' papers', S' = .mk w' t papers' ∧
+      List.Forall₂ (fun a b => a.1 = b.1 ∧ simDayG0 cfg d a.2 = .ok b.2) papers papers' := by
+  rw [simDayG0_mk] at h
+  obtain ⟨r, hr, h⟩ := bind_eq_ok h
+  obtain ⟨w2, _, rfl⟩ := map_eq_ok h
+  exact ⟨w2, r.1, rfl, simPapersG0_forall₂ _ _ _ hr⟩
+
 theorem forall₂_loopG_refl : ∀ (papers : List (List Nat × SimG K)),
     List.Forall₂ (fun a b => a.1 = b.1 ∧ simLoopG cfg [] a.2 = .ok b.2) papers papers
   | [] => .nil
@@ -956,18 +993,26 @@ theorem simLoopG_papers {t : GTree K} : ∀ (ds : List Nat) {w : World K} {paper
     obtain ⟨w2, p2, rfl, f2⟩ := simLoopG_papers ds h2
     exact ⟨w2, p2, rfl, forall₂_loopG_cons f1 f2⟩
 
-/-- after a whole `simRunG` of the parent every shadow copy has been stepped by its own `simLoopG` over all the
-    dates (the synthetic row included) — whatever the parent's tree, run functions, capital -/
+theorem forall₂_shadowG_cons {d : Nat} {ds : List Nat} : ∀ {l1 l2 l3 : List (List Nat × SimG K)},
+    List.Forall₂ (fun a b => a.1 = b.1 ∧ simDayG0 cfg d a.2 = .ok b.2) l1 l2 →
+    List.Forall₂ (fun a b => a.1 = b.1 ∧ simLoopG cfg ds a.2 = .ok b.2) l2 l3 →
+    List.Forall₂ (fun a b => a.1 = b.1 ∧ simShadowG cfg (d :: ds) a.2 = .ok b.2) l1 l3
+  | [], [], [], _, _ => .nil
+  | a :: l1, b :: l2, c :: l3, .cons h1 t1, .cons h2 t2 =>
+    .cons ⟨h1.1.trans h2.1, by rw [simShadowG_cons, h1.2, bind_ok]; exact h2.2⟩ (forall₂_shadowG_cons t1 t2)
+
+/-- after a whole `simRunG` of the parent every shadow copy has been stepped by its own `simShadowG` over all the
+    dates (update on the first, the loop body on the others) — whatever the parent's tree, run functions, capital -/
 theorem simRunG_papers {c : K} {d0 : Nat} {ds : List Nat} {w0 : World K} {t : GTree K}
     {papers : List (List Nat × SimG K)} {S' : SimG K} (h : simRunG cfg c (d0 :: ds) (.mk w0 t papers) = .ok S') :
     ∃ w' papers', S' = .mk w' t papers' ∧
-      List.Forall₂ (fun a b => a.1 = b.1 ∧ simLoopG cfg (d0 :: ds) a.2 = .ok b.2) papers papers' := by
+      List.Forall₂ (fun a b => a.1 = b.1 ∧ simShadowG cfg (d0 :: ds) a.2 = .ok b.2) papers papers' := by
   rw [simRunG_mk] at h
   obtain ⟨w1, _, h⟩ := bind_eq_ok h
   obtain ⟨r, hr, h⟩ := bind_eq_ok h
   obtain ⟨w3, _, h⟩ := bind_eq_ok h
   obtain ⟨w2, p2, rfl, f2⟩ := simLoopG_papers ds h
-  exact ⟨w2, p2, rfl, forall₂_loopG_cons (simPapersG_forall₂ _ _ _ hr) f2⟩
+  exact ⟨w2, p2, rfl, forall₂_shadowG_cons (simPapersG0_forall₂ _ _ _ hr) f2⟩
 
 end papers
 
@@ -1024,6 +1069,42 @@ theorem simPapersG_paperIn {d : Nat} : ∀ (papers : List (List Nat × SimG K)) 
       exact simPapersG_keep rest _ r1 h1 hnd.1 (setPaperPx_paperIn_self g1 g2)
     · exact simPapersG_paperIn rest _ r1 h1 hnd.2 q s'' hm' (setPaperPx_paperT hq)
 
+theorem simPapersG0_paperT {d : Nat} {q : List Nat} : ∀ (papers : List (List Nat × SimG K)) (w : World K)
+    (r : List (List Nat × SimG K) × World K), simPapersG0 cfg d papers w = .ok r →
+    PaperT w.root q → PaperT r.2.root q
+  | [], w, r, h, hq => by rw [simPapersG0_nil] at h; cases h; exact hq
+  | (path, s) :: rest, w, r, h, hq => by
+    rw [simPapersG0_cons] at h
+    obtain ⟨s', _, h⟩ := bind_eq_ok h
+    obtain ⟨r1, h1, rfl⟩ := map_eq_ok h
+    exact simPapersG0_paperT rest _ r1 h1 (setPaperPx_paperT hq)
+
+theorem simPapersG0_keep {d : Nat} {q : List Nat} {px : K} : ∀ (papers : List (List Nat × SimG K)) (w : World K)
+    (r : List (List Nat × SimG K) × World K), simPapersG0 cfg d papers w = .ok r →
+    q ∉ papers.map (·.1) → PaperIn px w.root q → PaperIn px r.2.root q
+  | [], w, r, h, _, hq => by rw [simPapersG0_nil] at h; cases h; exact hq
+  | (path, s) :: rest, w, r, h, hn, hq => by
+    rw [simPapersG0_cons] at h
+    obtain ⟨s', _, h⟩ := bind_eq_ok h
+    obtain ⟨r1, h1, rfl⟩ := map_eq_ok h
+    simp only [List.map_cons, List.mem_cons, not_or] at hn
+    exact simPapersG0_keep rest _ r1 h1 hn.2 (setPaperPx_paperIn_ne hn.1 hq)
+
+theorem simPapersG0_paperIn {d : Nat} : ∀ (papers : List (List Nat × SimG K)) (w : World K)
+    (r : List (List Nat × SimG K) × World K), simPapersG0 cfg d papers w = .ok r →
+    (papers.map (·.1)).Nodup → ∀ q s', (q, s') ∈ r.1 → PaperT w.root q → PaperIn s'.world.price r.2.root q
+  | [], w, r, h, _, q, s', hm, _ => by rw [simPapersG0_nil] at h; cases h; cases hm
+  | (path, s) :: rest, w, r, h, hnd, q, s'', hm, hq => by
+    rw [simPapersG0_cons] at h
+    obtain ⟨s', _, h⟩ := bind_eq_ok h
+    obtain ⟨r1, h1, rfl⟩ := map_eq_ok h
+    simp only [List.map_cons, List.nodup_cons] at hnd
+    rcases List.mem_cons.1 hm with heq | hm'
+    · cases heq
+      obtain ⟨sd, kk, g1, g2⟩ := paperT_iff.1 hq
+      exact simPapersG0_keep rest _ r1 h1 hnd.1 (setPaperPx_paperIn_self g1 g2)
+    · exact simPapersG0_paperIn rest _ r1 h1 hnd.2 q s'' hm' (setPaperPx_paperT hq)
+
 /-- **one date of a nested backtest** over a tree whose `Strategy.run()` is public: every shadow copy is stepped by
     its own `simDayG`, and at the end of the day every paper-traded strategy of the tree that has a shadow copy shows
     the stepped copy's price as its own price, recorded at row `d` -/
@@ -1072,7 +1153,7 @@ theorem simRunG_first_child_price {c : K} {d0 : Nat} {w0 : World K} {t : GTree K
   refine ⟨w3, r.1, rfl, fun q s' hm hq => ?_⟩
   have hl := ((RunC.single (C := fun _ => True) (.adjust _ _ _ _ h1)).lift (paperLaws cfg) (wok_true w0)).1
   obtain ⟨px, hin⟩ := hq
-  exact updRoot_paperAt h3 (simPapersG_paperIn _ _ _ hr hnd q s' hm ⟨px, paperIn_of_lift hl hin⟩)
+  exact updRoot_paperAt h3 (simPapersG0_paperIn _ _ _ hr hnd q s' hm ⟨px, paperIn_of_lift hl hin⟩)
 
 /-- **a whole nested backtest**: at the end, on the last date, every paper-traded strategy that has a shadow copy
     shows the final copy's price, recorded at that row -/
@@ -1094,7 +1175,7 @@ theorem simRunG_child_price {c : K} {d0 : Nat} {ds : List Nat} {w0 : World K} {t
     obtain ⟨S2, h2, h3⟩ := bind_eq_ok h2
     cases h3
     have hnd1 : (p1.map (·.1)).Nodup := by
-      rw [← forall₂_pathsG (R := fun a b => simLoopG cfg (d0 :: ds') a = .ok b) f1]; exact hnd
+      rw [← forall₂_pathsG (R := fun a b => simShadowG cfg (d0 :: ds') a = .ok b) f1]; exact hnd
     obtain ⟨w', papers', rfl, _, hp⟩ := simDayG_child_price hpub h2 hnd1
     refine ⟨w', papers', rfl, fun q s' hm hq => hp q s' hm ?_⟩
     rw [simRunG_mk] at h1
@@ -1103,7 +1184,7 @@ theorem simRunG_child_price {c : K} {d0 : Nat} {ds : List Nat} {w0 : World K} {t
     obtain ⟨w3, h3, h1⟩ := bind_eq_ok h1
     have hl := ((RunC.single (C := fun _ => True) (.adjust _ _ _ _ ha)).lift (paperLaws cfg) (wok_true w0)).1
     obtain ⟨px, hin⟩ := hq
-    obtain ⟨px', hin'⟩ := simPapersG_paperT _ _ _ hr ⟨px, paperIn_of_lift hl hin⟩
+    obtain ⟨px', hin'⟩ := simPapersG0_paperT _ _ _ hr ⟨px, paperIn_of_lift hl hin⟩
     exact simLoopG_paperT hpub ds' h1 ⟨px', (updRoot_paperAt h3 hin').paperIn⟩
 
 end price
@@ -1149,11 +1230,37 @@ theorem simPapers_embed (d : Nat) : (ps : List (List Nat × Sim K)) → ∀ (w :
     simp only [embedPapers_cons]
 end
 
+mutual
+/-- the first date: stepping the embedded `Sim` is the embedding of the stepped `Sim` -/
+theorem simDay0_embed (d : Nat) : (s : Sim K) → simDayG0 cfg d (embedSim cfg s) = (simDay0 cfg d s).map (embedSim cfg)
+  | .mk w t papers => by
+    rw [embedSim_mk, simDayG0_mk, simDay0_mk, simPapers0_embed d papers w, map_bind', bind_map']
+    refine P09.bind_congr' _ fun r _ => ?_
+    rw [map_map']
+    simp only [embedSim_mk]
+theorem simPapers0_embed (d : Nat) : (ps : List (List Nat × Sim K)) → ∀ (w : World K),
+    simPapersG0 cfg d (embedPapers cfg ps) w =
+      (simPapers0 cfg d ps w).map fun r => (embedPapers cfg r.1, r.2)
+  | [], w => by rw [embedPapers_nil, simPapersG0_nil, simPapers0_nil]; rfl
+  | (q, s) :: rest, w => by
+    rw [embedPapers_cons, simPapersG0_cons, simPapers0_cons, simDay0_embed d s, map_bind', bind_map']
+    refine P09.bind_congr' _ fun s' _ => ?_
+    rw [embedSim_world, simPapers0_embed d rest, map_map', map_map']
+    simp only [embedPapers_cons]
+end
+
 theorem simLoop_embed : ∀ (ds : List Nat) (s : Sim K),
     simLoopG cfg ds (embedSim cfg s) = (simLoop cfg ds s).map (embedSim cfg)
   | [], s => rfl
   | d :: ds, s => by
     rw [simLoopG_cons, simLoop_cons, simDay_embed, map_bind', bind_map']
+    exact P09.bind_congr' _ fun s1 _ => simLoop_embed ds s1
+
+theorem simShadow_embed : ∀ (ds : List Nat) (s : Sim K),
+    simShadowG cfg ds (embedSim cfg s) = (simShadow cfg ds s).map (embedSim cfg)
+  | [], s => rfl
+  | d :: ds, s => by
+    rw [simShadowG_cons, simShadow_cons, simDay0_embed, map_bind', bind_map']
     exact P09.bind_congr' _ fun s1 _ => simLoop_embed ds s1
 
 /-- **`Backtest.run` of a nested tree of fixed-shape programs** is `simRunG` of its embedding -/
@@ -1165,7 +1272,7 @@ theorem simRun_embed (c : K) (dates : List Nat) (s : Sim K) :
   | cons d0 ds =>
     rw [embedSim_mk, simRunG_mk, simRun_mk, bind_map']
     refine P09.bind_congr' _ fun w1 _ => ?_
-    rw [simPapers_embed, map_bind', bind_map']
+    rw [simPapers0_embed, map_bind', bind_map']
     refine P09.bind_congr' _ fun r _ => ?_
     rw [bind_map']
     refine P09.bind_congr' _ fun w3 _ => ?_
